@@ -159,6 +159,14 @@ class ConversionSpecifier:
                     f"%{self.conversion_type} conversion specifier accepts numbers, not"
                     f" {arg}"
                 )
+            elif self.conversion_type in "oxX" and not TypedValue(
+                _SupportsIndex
+            ).is_assignable(arg, ctx):
+                # %o, %x and %X raise TypeError for floats
+                yield (
+                    f"%{self.conversion_type} conversion specifier accepts integers,"
+                    f" not {arg}"
+                )
         elif self.conversion_type in ("a", "r"):
             # accepts anything
             pass
